@@ -28,7 +28,7 @@ from operon_ai.providers import LLMResponse, ToolCall, MockProvider
 ID = "C03"
 LEVEL = "exploration"
 ENGINE = "seq"
-RUNS = {"quick": 30_000, "thorough": 1_500_000}
+RUNS = {"quick": 80_000, "thorough": 4_000_000}
 RULE = ("seeded histories (1-3 constructor tools + 3-10 operations, <=14 thorough) over {register/re-register a tool "
         "(requirements declared as set/frozenset/list/tuple through required_capabilities or capabilities, via "
         "register_function / SimpleTool / a custom Tool class), metabolize(expression) on the auto-detected and each "
@@ -220,24 +220,29 @@ def simplify(plan):
         if r[4] != "set":
             yield put(where, j, r[:4] + ["set"] + r[5:])
     for j, o in enumerate(plan["ops"]):
-        new = None
-        if o[0] == "met" and (o[1] != "bare" or o[4] is not None):
-            new = ["met", "bare", o[2], o[3], None]
+        cands = []
+        if o[0] == "met":
+            if o[1] != "bare":
+                cands.append(["met", "bare", o[2], o[3], o[4]])
+            if o[4] is not None:
+                cands.append(["met", o[1], o[2], o[3], None])
         elif o[0] == "call" and o[2] != "none":
-            new = ["call", o[1], "none"]
+            cands.append(["call", o[1], "none"])
         elif o[0] == "llm":
-            if o[3] not in (1, 2):
-                new = ["llm", o[1], o[2], 1, o[4]]
-            elif o[2] != "final":
-                new = ["llm", o[1], "final", o[3], o[4]]
-            elif any(isinstance(r, list) and len(r) > 1 for r in o[1]):
-                new = ["llm", [(r[:1] if isinstance(r, list) else r) for r in o[1]], o[2], o[3], o[4]]
-            elif len(o[1]) > 1:
-                for c in range(len(o[1])):
-                    ops = [list(x) for x in plan["ops"]]
-                    ops[j] = ["llm", o[1][:c] + o[1][c + 1:], o[2], o[3], o[4]]
-                    yield {**plan, "ops": ops}
-        if new is not None:
+            for c in range(len(o[1])):                       # drop a round
+                cands.append(["llm", o[1][:c] + o[1][c + 1:], o[2], o[3], o[4]])
+            for c, r in enumerate(o[1]):                     # drop a call inside a round
+                if isinstance(r, list) and len(r) > 1:
+                    for d in range(len(r)):
+                        cands.append(["llm", o[1][:c] + [r[:d] + r[d + 1:]] + o[1][c + 1:], o[2], o[3], o[4]])
+            if o[2] != "final":
+                cands.append(["llm", o[1], "final", o[3], o[4]])
+            for small in (1, 2, 3):
+                if small < o[3]:
+                    cands.append(["llm", o[1], o[2], small, o[4]])
+            if not o[4]:
+                cands.append(["llm", o[1], o[2], o[3], True])
+        for new in cands:
             ops = [list(x) for x in plan["ops"]]
             ops[j] = new
             yield {**plan, "ops": ops}
